@@ -25,7 +25,7 @@ Explain(e) ==
          [] e.act = "U" -> Unlock(e.r)
          [] e.act = "G" -> SaveReq(e.r)
          [] e.act = "D" -> Close(e.r)
-         [] e.act = "S" -> Snap(e.r)
+         [] e.act = "S" -> IF pc[e.r] = "look" THEN Look(e.r) ELSE Snap(e.r)
          [] e.act = "P" -> Put(e.r)
          [] OTHER -> FALSE
     /\ lock' = e.lock /\ clock' = e.clock
